@@ -246,7 +246,13 @@ func (x *execState) each(s *tw.Stmt, sc *Scope) signal {
 			}
 		} else {
 			if el.K != av.Arr[0].K {
-				// the statement speaks of arrays with elements of one type
+				// the statement speaks of arrays with elements of one type; but where the loop
+				// variable's name is visible outside the loop (with the type of the first element,
+				// or the first pass would have failed), binding it to this element re-types that name
+				if _, found, stale := sc.lookup(s.Name); found && !stale {
+					x.fail(Err, "loop variable bound to a value of a different type than the visible "+s.Name)
+					return sigNone
+				}
 				x.fail(Unspec, "array with elements of different types")
 				return sigNone
 			}
